@@ -612,7 +612,7 @@ type comparer struct {
 func (c *comparer) bad(class string, k reflect.Kind, path, format string, a ...any) {
 	kind := kindClass(k)
 	if c.optEmb {
-		class, kind = class+"-in-optional-embedded", "member"
+		class, kind = "in-optional-embedded", "member"
 	}
 	if len(c.out) < 10 {
 		c.out = append(c.out, mismatch{class, kind, path, fmt.Sprintf(format, a...)})
